@@ -184,6 +184,19 @@ pub fn replay_value(id: &str, raw: bool, data: &[u8], clause: &str, detail: &str
 pub fn one(data: &[u8]) {
     let link = LINK.get_or_init(|| Mutex::new(start()));
     let link = link.lock().unwrap();
+    // announce the unit (length-prefixed, rewritten in place): if the process dies without libFuzzer being able
+    // to save the unit (stack overflow on the worker thread), the supervisor recovers it from here
+    {
+        use std::os::unix::fs::FileExt;
+        static CUR: OnceLock<Option<std::fs::File>> = OnceLock::new();
+        let f = CUR.get_or_init(|| std::fs::File::create(out_dir().join(format!("cur.{}", std::process::id()))).ok());
+        if let Some(f) = f {
+            let mut buf = Vec::with_capacity(data.len() + 4);
+            buf.extend_from_slice(&(data.len() as u32).to_le_bytes());
+            buf.extend_from_slice(data);
+            let _ = f.write_all_at(&buf, 0);
+        }
+    }
     if link.tx.send(data.to_vec()).is_err() {
         eprintln!("casverif fuzz worker is gone");
         std::process::abort();
@@ -354,12 +367,15 @@ pub fn phase(
     }
     let deadline = std::time::Instant::now() + std::time::Duration::from_secs(3 * 3600);
     let mut ended_by_crash = 0;
+    let mut dead_pids: Vec<(usize, u32)> = Vec::new();
     for (j, mut c) in children {
+        let pid = c.id();
         loop {
             match c.try_wait() {
                 Ok(Some(s)) => {
                     if !s.success() {
                         ended_by_crash += 1;
+                        dead_pids.push((j, pid));
                         let log = std::fs::read_to_string(dir.join(format!("job{}.log", j))).unwrap_or_default();
                         let tail: Vec<&str> = log.lines().rev().filter(|l| !l.starts_with('#') && !l.starts_with('"')).take(6).collect();
                         res.notes.push(format!("fuzz job {} ended with {:?}: {}", j, s, tail.into_iter().rev().collect::<Vec<_>>().join(" / ").chars().take(600).collect::<String>()));
@@ -436,6 +452,21 @@ pub fn phase(
                 res.failures.push(v);
             } else {
                 res.notes.push(format!("an oracle failure seen in the fuzz target did not reproduce in a fresh process ({}); not reported", verdict));
+            }
+        }
+    }
+    // a job that died without libFuzzer saving the unit: recover the announced unit as an artifact
+    for (j, pid) in &dead_pids {
+        let has_own_artifact = std::fs::read_to_string(dir.join(format!("job{}.log", j))).map(|l| l.contains("Test unit written to")).unwrap_or(false);
+        if has_own_artifact {
+            continue;
+        }
+        if let Ok(cur) = std::fs::read(outd.join(format!("cur.{}", pid))) {
+            if cur.len() >= 4 {
+                let len = u32::from_le_bytes([cur[0], cur[1], cur[2], cur[3]]) as usize;
+                if cur.len() >= 4 + len {
+                    let _ = std::fs::write(arts.join(format!("lastunit-job{}", j)), &cur[4..4 + len]);
+                }
             }
         }
     }
